@@ -552,9 +552,10 @@ class Batch:
                 got = tr[k + 1][name]
                 if got == want:
                     continue
-                if name in d.out_ports and not seen_change:
+                if name in d.out_ports and not seen_change and (got == 'x' or not d.seq):
                     # never assigned so far: the simulator shows the wire's power-up 0, the `output reg` holds x (or, for an
-                    # incompletely assigned always @(*) = latch, whatever the time-0 evaluation on unknown inputs left there)
+                    # incompletely assigned always @(*) = latch, whatever the time-0 evaluation on unknown inputs left there).
+                    # A KNOWN value in a clocked block is different: the Verilog executed an assignment the Python never did.
                     kind = 'x-at-powerup'
                 elif got == 'x':
                     kind = 'x-state' if name not in d.out_ports else 'x-after-write'
@@ -1023,6 +1024,8 @@ def split_bits(code, widths):
 
 def judge_refusal(res, d, c):
     kind = [t for t in c['tags'] if t.startswith('refuse:')][0][7:]
+    if d.syntax is not None:
+        res.disagree('py2syntax-accepts-refused-form', dict(kind=kind, src=c['src']))
     if d.gen_err:
         res.hist('refusal_stream', kind + ':raised')
     elif d.parse_err:
